@@ -63,6 +63,7 @@ type mockThings struct {
 	item       *vt.Item
 	batch      *things.BatchEntities
 	batchResp  *things.BatchResponse
+	nilResult  bool // finders / get_all / batch_get return a nil result pointer with a nil error
 	elements   *things.Elements
 	createdID  string
 	pong       string
@@ -113,11 +114,17 @@ func (m *mockThings) Delete(ctx *restli.RequestContext, thingId string) error {
 func (m *mockThings) GetAll(ctx *restli.RequestContext) (*things.Elements, error) {
 	m.ctx = ctx
 	err := m.rec(call{method: "get_all"})
+	if m.nilResult {
+		return nil, err
+	}
 	return &things.Elements{}, err
 }
 func (m *mockThings) BatchGet(ctx *restli.RequestContext, keys []string) (*things.BatchEntities, error) {
 	m.ctx = ctx
 	err := m.rec(call{method: "batch_get", keys: keys})
+	if m.nilResult {
+		return nil, err
+	}
 	if m.batch != nil {
 		return m.batch, err
 	}
@@ -149,6 +156,9 @@ func (m *mockThings) BatchDelete(ctx *restli.RequestContext, keys []string) (*th
 func (m *mockThings) FindBySearch(ctx *restli.RequestContext, p *things.FindBySearchParams) (*things.Elements, error) {
 	m.ctx = ctx
 	err := m.rec(call{method: "finder:search", q: p.Kw})
+	if m.nilResult {
+		return nil, err
+	}
 	if m.elements != nil {
 		return m.elements, err
 	}
@@ -157,6 +167,9 @@ func (m *mockThings) FindBySearch(ctx *restli.RequestContext, p *things.FindBySe
 func (m *mockThings) FindByWithMeta(ctx *restli.RequestContext, p *things.FindByWithMetaParams) (*things.FindByWithMetaElements, error) {
 	m.ctx = ctx
 	err := m.rec(call{method: "finder:withMeta", key2: int64(p.C)})
+	if m.nilResult {
+		return nil, err
+	}
 	return &things.FindByWithMetaElements{Elements: []*vt.Item{{Name: "m"}}, Metadata: &vt.Meta{Total: 41}}, err
 }
 func (m *mockThings) PingAction(ctx *restli.RequestContext, p *things.PingActionParams) (string, error) {
